@@ -270,6 +270,77 @@ func TrailerLists(level int) [][]*conformancev1.Header {
 	return out
 }
 
+// CORSHeaderNames are the response headers that the reference server's outermost
+// middleware (rs/cors, in front of rawResponder) sets before the handler runs:
+// Vary on every request, the three others when the request has an Origin.
+var CORSHeaderNames = []string{"Vary", "Access-Control-Allow-Origin", "Access-Control-Expose-Headers", "Access-Control-Allow-Credentials"}
+
+// PresetHeaders is what the generic outer middleware of unit c17-rawresp puts on
+// the response before it calls rawResponder ("pre-set header by outer
+// middleware"): one name outside and one inside the ordinary header alphabet.
+var PresetHeaders = map[string][]string{"Cache-Control": {"no-store"}, "X-Raw-R": {"pre-1", "pre-2"}}
+
+// OuterHeaderLists: raw header lists that name headers which middleware in front
+// of rawResponder has already set when rawResponder is entered - in different
+// case spellings, in one entry and in two entries (adjacent / around another
+// entry).  The given values must all reach the wire, in list order.  Used by
+// c17-refserver (real chain of createServer, with and without an Origin request
+// header) and by c17-rawresp (generic pre-setting outer middleware).  These
+// lists are NOT part of HeaderLists, so units c17-body / c17-rawreq keep their size.
+func OuterHeaderLists(level int) [][]*conformancev1.Header {
+	out := [][]*conformancev1.Header{
+		{H("vary", "Accept-Encoding", "X-Custom")},
+		{H("Vary", "v1"), H("X-Raw-B", "b1"), H("VARY", "v2", "v3")}, // two entries around another one
+		{H("access-control-allow-origin", "https://raw.example")},
+		{H("Access-Control-Allow-Origin", "o1"), H("Content-Type", "application/x-raw"), H("access-control-allow-origin", "o2")},
+		{H("Access-Control-Expose-Headers", "X-A", "X-B"), H("access-control-allow-credentials", "false")},
+		{H("Cache-Control", "max-age=60"), H("X-Raw-R", "r1", "r2")},
+		{H("x-raw-r", "r1"), H("cache-control", "private"), H("X-Raw-R", "r2"), H("Cache-Control", "max-age=1", "must-revalidate")},
+	}
+	if level >= 1 {
+		out = append(out, [][]*conformancev1.Header{
+			{H("Vary", "*")},
+			{H("VARY", "a"), H("vary", "b")},                // adjacent case variants
+			{H("Access-Control-Allow-Credentials", "true")}, // the value the middleware sets itself
+			{H("Vary", "Origin")},                           // the value the middleware sets itself
+			{H("access-control-expose-headers", "X-A"), H("Vary", "v"), H("Access-Control-Expose-Headers", "X-B")},
+			{H("Vary", "v1"), H("Access-Control-Allow-Origin", "o"), H("Access-Control-Expose-Headers", "e1", "e2"), H("Access-Control-Allow-Credentials", "c")},
+			{H("cache-control", "public")},
+			{H("X-Raw-R", "r1"), H("X-Raw-R", "r1")}, // the same entry twice
+		}...)
+	}
+	return out
+}
+
+// OuterTrailerLists: trailers named like headers that outer middleware sets (no
+// middleware sets trailers, so exactly the given values are demanded).  Names
+// that net/http refuses as trailers (Cache-Control, ...) are not used.
+func OuterTrailerLists(level int) [][]*conformancev1.Header {
+	out := [][]*conformancev1.Header{
+		nil,
+		{H("Vary", "tv1", "tv2")},
+		{H("access-control-allow-origin", "t-o1"), H("X-Raw-T", "t1"), H("Access-Control-Allow-Origin", "t-o2")},
+	}
+	if level >= 1 {
+		out = append(out, [][]*conformancev1.Header{
+			{H("vary", "tv1"), H("Access-Control-Expose-Headers", "te")},
+			{H("X-Raw-R", "tr1"), H("Access-Control-Allow-Credentials", "tc")},
+		}...)
+	}
+	return out
+}
+
+// Subsequence: do all of want's elements occur in got, in order?
+func Subsequence(want, got []string) bool {
+	i := 0
+	for _, g := range got {
+		if i < len(want) && g == want[i] {
+			i++
+		}
+	}
+	return i == len(want)
+}
+
 // Entries returns, per canonical name, the number of list entries that name it.
 func Entries(hs []*conformancev1.Header) map[string]int {
 	m := map[string]int{}
